@@ -92,6 +92,7 @@ VACUITY = {
     'interface:filein_fileout': 50,
     'standin_solver_runs': 1000,
     'tempdir_comparisons': 1000,
+    'fault_injections': 100,
 }
 
 ENGINE = 'faults+tt (scripted stand-in solver in a private PATH/TMPDIR)'
@@ -219,8 +220,15 @@ def main(rec):
     if conv == 'stdin_stdout':
         data = sys.stdin.buffer.read()
     else:
-        with open(files[0], 'rb') as f:
-            data = f.read()
+        try:
+            with open(files[0], 'rb') as f:
+                data = f.read()
+        except OSError as e:
+            # like a real solver: complain and give up
+            rec['parse_error'] = 'cannot read the input file %r: %s' % (files[0], type(e).__name__)
+            if fam == 'so':
+                out.write(b'c cannot read the input file\ns UNKNOWN\n')
+            finish(1)
     try:
         n, clauses = parse(data)
     except Exception as e:
@@ -416,9 +424,12 @@ class Env:
         self.pa = j(self.root, 'pa')
         self.pb = j(self.root, 'pb')
         self.tmp = j(self.root, 'tmp')
+        # a second, legal but awkward temporary directory (blank in the path)
+        self.tmp_blank = j(self.root, 'my tmp dir')
+        self.tmp_plain = self.tmp
         self.cwd = j(self.root, 'cwd')
         self.log = j(self.root, 'log')
-        for d in (self.bin, self.pa, self.pb, self.tmp, self.cwd):
+        for d in (self.bin, self.pa, self.pb, self.tmp, self.tmp_blank, self.cwd):
             os.mkdir(d)
         self.py = j(self.bin, 'standin.py')
         self.script = j(self.bin, 'standin.sh')
@@ -437,6 +448,8 @@ class Env:
             shutil.rmtree(self.root, ignore_errors=True)
             raise RuntimeError('cannot execute the stand-in solver in %s' % self.root)
         with open(j(self.tmp, 'c20_keep.txt'), 'w') as f:
+            f.write('this file was here before the call\n')
+        with open(j(self.tmp_blank, 'c20_keep.txt'), 'w') as f:
             f.write('this file was here before the call\n')
         with open(j(self.cwd, 'c20_keep.txt'), 'w') as f:
             f.write('this file was here before the call\n')
@@ -467,6 +480,11 @@ class Env:
             else:
                 os.environ[k] = v
         shutil.rmtree(self.root, ignore_errors=True)
+
+    def set_tmp(self, kind):
+        self.tmp = self.tmp_blank if kind == 'blank' else self.tmp_plain
+        os.environ['TMPDIR'] = self.tmp
+        tempfile.tempdir = self.tmp
 
     def __enter__(self):
         return self
@@ -511,7 +529,7 @@ class Env:
     # ---- observation -------------------------------------------------------
     def snapshot(self):
         snap = {}
-        for top in (self.tmp, self.cwd):
+        for top in (self.tmp_plain, self.tmp_blank, self.cwd):
             for dirpath, dirnames, filenames in os.walk(top):
                 for d in dirnames:
                     snap[os.path.join(dirpath, d)] = 'dir'
@@ -893,11 +911,56 @@ def proj(o, pair):
     return ('ret', repr(v))
 
 
+class FaultyPopen:
+    """Fault injector at the process-spawning seam of the bridge: counts the
+    subprocess.Popen calls and makes the k-th one fail -- at construction
+    (`spawn`: the program vanished, E2BIG, EMFILE...) or when its output is
+    collected (`comm`: communicate() raises).  fault = [k, kind, errno]."""
+
+    def __init__(self, fault):
+        self.fault = fault
+        self.calls = []
+
+    def __enter__(self):
+        import subprocess
+        self._real = subprocess.Popen
+        me = self
+
+        class Popen(self._real):
+            def __init__(p_self, *a, **kw):
+                args = kw.get('args', a[0] if a else None)
+                idx = len(me.calls)
+                probe = bool(args) and list(args)[-1:] == ['--help']
+                me.calls.append('probe' if probe else 'run')
+                p_self._c20_fail = None
+                if me.fault is not None and me.fault[0] == idx:
+                    if me.fault[1] == 'spawn':
+                        raise OSError(me.fault[2], os.strerror(me.fault[2]))
+                    p_self._c20_fail = me.fault[2]
+                me._real.__init__(p_self, *a, **kw)
+
+            def communicate(p_self, *a, **kw):
+                if p_self._c20_fail is not None:
+                    try:
+                        me._real.communicate(p_self, *a, **kw)
+                    finally:
+                        pass
+                    raise OSError(p_self._c20_fail, os.strerror(p_self._c20_fail))
+                return me._real.communicate(p_self, *a, **kw)
+        subprocess.Popen = Popen
+        return self
+
+    def __exit__(self, *a):
+        import subprocess
+        subprocess.Popen = self._real
+
+
 def execute(case, env, names):
     """Run solve() and is_satisfiable() for the case; returns observations."""
     from cnfgen.formula.cnf import CNF
     from cnfgen.utils.solver import sat_solve
     env.install(expand_inst(case['inst'], names))
+    env.set_tmp(case.get('tmpkind', 'plain'))
     os.environ['C20_SHAPE'] = case.get('shape') or ''
     X = build_formula(case['F'])
     cmd = case.get('cmd')
@@ -928,14 +991,22 @@ def execute(case, env, names):
         raise KeyError(entry)
     obs = {'root': env.root}
     env.read_log()
+    fault = case.get('fault')
     for tag, fn in (('solve', f_solve), ('issat', f_issat)):
         before = env.snapshot()
         cwd0 = os.getcwd()
         sys.stderr = io.StringIO()
+        inj = FaultyPopen(fault) if fault is not None or case.get('count_popen') else None
         try:
+            if inj is not None:
+                inj.__enter__()
             o = call(fn)
         finally:
+            if inj is not None:
+                inj.__exit__()
             sys.stderr = env._saved_stderr
+        if inj is not None:
+            obs.setdefault('popen', {})[tag] = list(inj.calls)
         after = env.snapshot()
         added = sorted(p for p in after if p not in before)
         removed = sorted(p for p in before if p not in after)
@@ -973,6 +1044,7 @@ def judge(case, exp, obs, names):
         # no run-specific path in a message: replays must be reproducible
         what = re.sub(re.escape(obs['root']) + r'/tmp/tmp[A-Za-z0-9_]+', '<tmpfile>', what)
         what = re.sub(r'tmp/tmp[A-Za-z0-9_]{6,}', 'tmp/<tmpfile>', what)
+        what = re.sub(r'my tmp dir/tmp[A-Za-z0-9_]{6,}', 'my tmp dir/<tmpfile>', what)
         out.append({'key': key, 'what': what.replace(obs['root'], '<root>'), 'case': case})
 
     so = obs['solve']['out']
@@ -1133,7 +1205,104 @@ def judge(case, exp, obs, names):
     return out
 
 
+FAULT_KINDS = [['spawn', 2], ['spawn', 7], ['spawn', 24], ['comm', 32]]   # ENOENT E2BIG EMFILE EPIPE
+
+
+def judge_fault(case, obs):
+    """One injected failure of the process-spawning seam: a failing solver
+    raises the documented RuntimeError (a failing *probe* may also make the
+    bridge move on to another installed solver and answer correctly); never a
+    wrong verdict, never another exception, never a leftover file."""
+    out = []
+    F = case['F']
+    k, kind, eno = case['fault']
+
+    def bad(key, what):
+        what = re.sub(r'tmp[A-Za-z0-9_]{6,}', '<tmpfile>', what)
+        out.append({'key': key, 'what': what.replace(obs['root'], '<root>'), 'case': case})
+    sat, bm = truth(F)
+    for tag, api in (('solve', 'solve'), ('issat', 'is_satisfiable')):
+        ob = obs[tag]
+        calls = obs['popen'][tag]
+        if k >= len(calls):
+            continue            # this call spawns fewer processes: nothing injected
+        hit = calls[k]
+        where = '%s:%s-%d' % (hit, kind, eno)
+        ctx = '%s(cmd=%r) with the %s process #%d failing (%s, errno %d); processes: %r' % (
+            api, case.get('cmd'), hit, k, kind, eno, calls)
+        if ob['added']:
+            bad('fault:%s:tempfiles:leftover' % where,
+                '%s left %d file(s) behind; outcome: %s' % (ctx, len(ob['added']), describe(ob['out'])))
+        if ob['removed'] or ob['changed'] or ob['cwd_moved']:
+            bad('fault:%s:tempfiles:foreign-file-touched' % where, ctx)
+        o = ob['out']
+        if o[0] == 'exc':
+            if 'RuntimeError' not in o[2]:
+                bad('fault:%s:exception:%s' % (where, o[1]),
+                    '%s: %s instead of the documented RuntimeError' % (ctx, describe(o)))
+            continue
+        if hit == 'run':
+            bad('fault:%s:returned-verdict' % where,
+                '%s: the solver run failed but the call %s' % (ctx, describe(o)))
+            continue
+        v = o[1]
+        if tag == 'solve':
+            ok = isinstance(v, tuple) and len(v) == 2 and v[0] is sat and \
+                ((v[1] is None) if not sat else (
+                    isinstance(v[1], list) and
+                    all(any(l in set(v[1]) for l in c) for c in F[1])))
+        else:
+            ok = v is sat
+        if not ok:
+            bad('fault:%s:wrong-verdict' % where, '%s: %s for a%s formula' % (
+                ctx, describe(o), ' satisfiable' if sat else 'n unsatisfiable'))
+    return out
+
+
+def run_fault_family(case, env, names, conv, R):
+    """All single failures of the process-spawning seam for one call."""
+    base = {k_: v for k_, v in case.items() if k_ != 'faultfamily'}
+    clean = execute(dict(base, count_popen=True), env, names)
+    npts = max(len(clean['popen']['solve']), len(clean['popen']['issat']))
+    vs = []
+    R.stats['fault_families'] += 1
+    if clean['solve']['out'][0] != 'ret':
+        # the call fails even without an injected fault: that is a finding of
+        # the ordinary oracle, not of the fault enumeration
+        return judge(base, expectation(base, names, conv), clean, names)
+    for k in range(npts):
+        for kind, eno in FAULT_KINDS:
+            c = dict(base, fault=[k, kind, eno])
+            obs = execute(c, env, names)
+            if obs['popen']['solve'][:k + 1] != clean['popen']['solve'][:k + 1]:
+                raise RuntimeError('fault run diverged before the fault point: %r' % (c,))
+            got = judge_fault(c, obs)
+            vs.extend(got)
+            R.stats['fault_injections'] += 1
+            R.stats['api_calls'] += 2
+            R.stats['tempdir_comparisons'] += 2
+            o = obs['solve']['out']
+            R.outcomes['fault:%s:%s' % (clean['popen']['solve'][k], 'raised:' + o[1] if o[0] == 'exc'
+                                        else 'answered')] += 1
+            R.case(sample=c if k == 0 and kind == 'spawn' and eno == 2 else None, nontrivial=True)
+    return vs
+
+
+class _NullR:
+    def __init__(self):
+        import collections
+        self.stats = collections.Counter()
+        self.outcomes = collections.Counter()
+
+    def case(self, **kw):
+        pass
+
+
 def run_case(case, env, names, conv, R=None):
+    if case.get('faultfamily'):
+        return run_fault_family(case, env, names, conv, R if R is not None else _NullR())
+    if case.get('fault') is not None:
+        return judge_fault(case, execute(case, env, names))
     exp = expectation(case, names, conv)
     obs = execute(case, env, names)
     vs = judge(case, exp, obs, names)
@@ -1290,6 +1459,15 @@ def all_cases(tier, seed):
             cases.append(mk('select-sameas', F, cmd=None, sameas=names[i],
                             inst=[[names[(i + 3) % k], 'ok'], [names[(i + 5) % k], 'okb']]))
 
+    # C'. failures of the process-spawning seam (fault point x errno) ---------
+    for nm in reps:
+        for F in trio:
+            for cmd, inst in ((nm, 'ALL'), (None, [[nm, 'ok']]), (None, 'ALL'),
+                              (nm + ' --opt', [[nm, 'okb']])):
+                c = mk('faultpoints', F, cmd=cmd, inst=inst)
+                c['faultfamily'] = True
+                cases.append(c)
+
     # D. command lines -----------------------------------------------------------
     for nm in names:
         for cmd in (nm + ' --opt', nm + ' -a -b=3 --c', '  ' + nm + '  ', nm + '\t-x', nm + ' \n -y'):
@@ -1396,6 +1574,11 @@ def all_cases(tier, seed):
             continue
         seen.add(key)
         uniq.append(c)
+    # every third case runs with a temporary directory whose path contains
+    # blanks (legal; the bridge builds command lines that mention its files)
+    for i, c in enumerate(uniq):
+        if i % 3 == 1:
+            c['tmpkind'] = 'blank'
     return uniq
 
 
